@@ -3,7 +3,7 @@
     ASan/UBSan pipeline driver, not proved.  What is proved here is the inter-stage CONTRACT over the executable models
     MathDefs (validator's MathML passes / analyser's consumption), RedDefs (a unit reducer) and NumDefs (numeric guards). *)
 From Coq Require Import String Ascii List Bool ZArith.
-From LC Require Import NumDefs NumSpec NumProofs MathDefs MathSpec MathProofs MathWF RedDefs RedProofs.
+From LC Require Import NumDefs NumSpec NumProofs MathDefs MathSpec MathProofs MathWF RedDefs RedProofs RedGuardProofs.
 Import ListNotations.
 Local Open Scope string_scope.
 
@@ -193,3 +193,48 @@ Example C01_cycle_guard_two_cycle :
   /\ has_units_cycle no_std chain3 "c" = false.
 Proof. exact RedProofs.cycle_guard_two_cycle. Qed.
 Print Assumptions C01_cycle_guard_two_cycle.
+
+(** The guard itself at full strength (RedGuardProofs.v): on EVERY environment — dangling references, standard names,
+    any shape — the walk hasUnitsCycle answers true exactly when a reference cycle is reachable from the units
+    (declarative [reach] / [on_cycle] over the graph of non-standard references to existing units); the fuel |env| + 1 is
+    never the reason for its answer. *)
+Theorem C01_guard_decides_cycles :
+  forall is_std env n, has_units_cycle is_std env n = true <-> cycle_reachable is_std env n.
+Proof. exact RedGuardProofs.guard_decides_cycles. Qed.
+Print Assumptions C01_guard_decides_cycles.
+
+Theorem C01_guard_fuel_irrelevant :
+  forall is_std env k n, safe is_std env (S (length env) + k) [] n = safe is_std env (S (length env)) [] n.
+Proof. exact RedGuardProofs.guard_fuel_irrelevant. Qed.
+Print Assumptions C01_guard_fuel_irrelevant.
+
+(** Hence "no input makes a guarded reducer diverge" without any acyclicity premise: the guarded reducer always returns;
+    when the guard passes the plain reduction returns within fuel |env| + 1; when a cycle is reachable the answer is the
+    one for undefined units; when none is, the guarded function is the unguarded one. *)
+Theorem C01_guarded_reducers_total :
+  forall is_std std_log env n,
+    guarded_multiplier is_std std_log env n <> ROutOfFuel
+    /\ (has_units_cycle is_std env n = false -> update_unit_multiplier is_std std_log env (S (length env)) n <> ROutOfFuel)
+    /\ (has_units_cycle is_std env n = true -> guarded_multiplier is_std std_log env n = RFalse)
+    /\ (~ cycle_reachable is_std env n -> guarded_multiplier is_std std_log env n
+                                          = update_unit_multiplier is_std std_log env (S (length env)) n).
+Proof. exact RedGuardProofs.guarded_reducers_total. Qed.
+Print Assumptions C01_guarded_reducers_total.
+
+(** What the guard of 85ba0d4 does NOT cover (the two open K3 findings): the importer's walk over the local references of
+    an imported file never consults it (self-cycle u0 = [u0]: guard says cyclic, the walk diverges), and the renaming done
+    while flattening makes an acyclic imported file cyclic (q = [v] renamed to q = [q]) before an unguarded recursion. *)
+Theorem C01_unguarded_recursions_refuted :
+  (has_units_cycle no_std self_cycle "u0" = true
+   /\ forall fuel, update_unit_multiplier no_std no_log self_cycle fuel "u0" = ROutOfFuel)
+  /\ (has_units_cycle no_std transfer_lib "q" = false
+      /\ has_units_cycle no_std (rename_refs "v" "q" transfer_lib) "q" = true
+      /\ forall fuel, update_unit_multiplier no_std no_log (rename_refs "v" "q" transfer_lib) fuel "q" = ROutOfFuel).
+Proof. exact RedGuardProofs.unguarded_recursions_refuted. Qed.
+Print Assumptions C01_unguarded_recursions_refuted.
+
+Example C01_guard_decides_nonvacuous :
+  cycle_reachable no_std two_cycle "a" /\ ~ cycle_reachable no_std chain3 "c"
+  /\ has_units_cycle no_std two_cycle "a" = true /\ has_units_cycle no_std chain3 "c" = false.
+Proof. exact RedGuardProofs.guard_decides_nonvacuous. Qed.
+Print Assumptions C01_guard_decides_nonvacuous.
